@@ -41,14 +41,15 @@ class Ctx:
 
     def roots(self):
         tree = os.path.join(stage.SCRATCH, "tree")
-        return {"main": tree, "ser": os.path.join(tree, "locustdb-serialization"),
-                "cu": os.path.join(tree, "locustdb-compression-utils")}
+        # spans in the MIR of the path crates are printed relative to the workspace root (they are built with -p)
+        return {"main": tree, "ser": tree, "cu": tree}
 
     def src(self):
         if self._src is None:
             self.dumps(("main",))
             r = self.roots()
-            self._src = srcinfo.SrcInfo([r["main"], r["ser"], r["cu"]])
+            self._src = srcinfo.SrcInfo([r["main"], os.path.join(r["main"], "locustdb-serialization"),
+                                         os.path.join(r["main"], "locustdb-compression-utils")])
         return self._src
 
     def executor(self, which=("main",), stubs=None, **kw):
